@@ -234,7 +234,7 @@ func ownLocks(path string) ([]string, error) {
 		return nil, err
 	}
 	ino := inodeOf(st)
-	b, err := os.ReadFile("/proc/locks")
+	b, err := readProcLocks()
 	if err != nil {
 		return nil, err
 	}
